@@ -38,8 +38,8 @@ class BranchTreeAssembler(Transform[BranchTree, Tree]):
             comments=x.comments,
             names=x.names,
             **{
-                k: np.array([n.__getattribute__(k) for n in nodes])
-                for k in x.names.cols()
+                getattr(x.names, f): np.array([getattr(n, f) for n in nodes])
+                for f in x.names._fields
             },
         )
 
